@@ -78,7 +78,51 @@ def getStep (s : Samples Datum) (j : Json) : Except String (Step Datum) := do
   | "width" => return .width (← fldInt j "w") (← getFill j s) (← getPosOf j)
   | f => .error s!"unknown history call {f}"
 
-def handle (op : String) (a : Json) : Except String Json := do
+/-- protocol key of a Python parameter name -/
+def protoKey : String → String
+  | "left_closed" => "lc"
+  | "right_closed" => "rc"
+  | "fill_value" => "fill"
+  | "width" => "w"
+  | "position" => "pos"
+  | s => s
+
+/-- a request may carry `"posargs"`: the arguments the caller passed positionally after the first `skip`
+    parameters (the array, the dimension name), in the order they were passed.  They are bound to parameter
+    names by `bindArgs` with the model's signature table; the other parameters present in the request are the
+    keyword arguments.  `none` = Python's `TypeError` (too many positional arguments / a parameter given twice). -/
+def bindRequest (sig : List String) (skip : Nat) (a : Json) : Except String (Option Json) := do
+  match fldOpt a "posargs" with
+  | none => return some a
+  | some pj =>
+    let pos := (← pj.getArr?).toList
+    let params := sig.drop skip
+    let kw := params.filterMap (fun n =>
+      match a.getObjVal? (protoKey n) with | .ok v => some (n, v) | .error _ => none)
+    match bindArgs params pos kw with
+    | none => return none
+    | some b => return some (b.foldl (fun j (p : String × Json) => j.setObjVal! (protoKey p.1) p.2) a)
+
+def typeErrorJ : Json := Json.mkObj [("raise", Json.str "type")]
+
+/-- the signature table of the function a request calls -/
+def sigOf (op : String) (a : Json) : Except String (List String × Nat) := do
+  match op with
+  | "crop_dim" => return (sigCropDim, 2)
+  | "extend_dim" => return (sigExtendDim, 2)
+  | "width" =>
+    match ← fldStr a "fn" with
+    | "adjust" => return (sigAdjustDimWidth, 2)
+    | "crop" => return (sigCropDimWidth, 2)
+    | "extend" => return (sigExtendDimWidth, 2)
+    | f => .error s!"unknown width function {f}"
+  | "dim_step" =>
+    match fldOpt a "via" with
+    | some (.str "estimate") => return (sigEstimateDimStep, 1)
+    | _ => return (sigGetDimStep, 2)
+  | _ => return ([], 0)
+
+def handleBound (op : String) (a : Json) : Except String Json := do
   match op with
   | "crop_dim" =>
     let s ← getSamples a
@@ -119,9 +163,46 @@ def handle (op : String) (a : Json) : Except String Json := do
     | _, .error e => return araiseJ e
   | "history" =>
     let s ← getSamples a
-    let steps ← (← fldArr a "steps").mapM (getStep s)
+    let steps ← (← fldArr a "steps").mapM (fun j => do
+      let sig := match j.getObjValAs? String "fn" with
+        | .ok "crop_dim" => sigCropDim
+        | .ok "extend_dim" => sigExtendDim
+        | _ => sigAdjustDimWidth
+      match ← bindRequest sig 2 j with
+      | none => .error "history: a call that Python rejects with TypeError"
+      | some b => getStep s b)
     return valJ (arrJ ((runChain (← fldOptRat a "step_attr") s steps).map (aexceptJ samplesJ)))
   | "noop" => return Json.null
   | _ => .error s!"C17: unknown op {op}"
+
+/-- one call of a session: `{"fn": "crop_dim" | "extend_dim" | "width", array, arguments (keywords and / or
+    "posargs")}` -/
+def getCall (j : Json) : Except String (Option (Call Datum)) := do
+  let fn ← fldStr j "fn"
+  let sig := match fn with
+    | "crop_dim" => sigCropDim
+    | "extend_dim" => sigExtendDim
+    | _ => sigAdjustDimWidth
+  match ← bindRequest sig 2 j with
+  | none => return none
+  | some b =>
+    let s ← getSamples b
+    return some { attr := ← fldOptRat b "step_attr", arr := s, step := ← getStep s b }
+
+def handle (op : String) (a : Json) : Except String Json := do
+  match op with
+  | "session" =>
+    let calls ← (← fldArr a "calls").mapM getCall
+    if calls.any Option.isNone then return typeErrorJ
+    return valJ (arrJ ((runSession (calls.filterMap id)).map (aexceptJ samplesJ)))
+  | "sig_table" =>
+    -- the model's argument order (so that the harness can show it next to the extracted one)
+    let (sig, _) ← sigOf (← fldStr a "of") a
+    return valJ (arrJ (sig.map Json.str))
+  | _ =>
+    let (sig, skip) ← sigOf op a
+    match ← bindRequest sig skip a with
+    | none => return typeErrorJ
+    | some b => handleBound op b
 
 end SE.Ops.C17
